@@ -40,9 +40,11 @@ def main(argv):
     ctx = core.Ctx(prop, tier, seed, idx, n, budget)
     if hasattr(mod, "setup"):
         mod.setup(ctx)
-    mod.run_shard(ctx)
-    if hasattr(mod, "teardown"):
-        mod.teardown(ctx)
+    try:
+        mod.run_shard(ctx)
+    finally:
+        if hasattr(mod, "teardown"):
+            mod.teardown(ctx)
     tmp = out + ".tmp"
     with open(tmp, "w", encoding="utf8") as f:
         json.dump(ctx.result(), f, ensure_ascii=False)
